@@ -335,7 +335,7 @@ class C20(Prop):
                    "designs avoid the two open EDIF round-trip findings (bus identifiers starting with '&_', "
                    "negative base indices) so that a write-then-read copy is faithful",
                    "any exception raised by compare() counts as 'raises'"]
-    runs = {"quick": 2000, "thorough": 50000}
+    runs = {"quick": 5000, "thorough": 120000}
 
     def configure(self, rng, tier):
         r = rng
